@@ -1,7 +1,7 @@
 #!/bin/bash
 # Build the Coq development from clean (full .vo build), offline.
 set -e
-cd /verif/coq
+cd "$(dirname "$0")/../coq"
 rm -f Makefile Makefile.conf .Makefile.d
 find theories -name '*.vo' -o -name '*.vok' -o -name '*.vos' -o -name '*.glob' -o -name '.*.aux' | xargs -r rm -f
 coq_makefile -f _CoqProject -o Makefile
